@@ -207,6 +207,12 @@ def run_shard(spec):
     for entry, files, focus, flags, argv in cases:
         col.eval()
         dirs = write_layout(root, files)
+        cwd_is_user = (not files[1]) and (chash(entry, files) [0] in "01234567")
+        if cwd_is_user:
+            # the working directory IS the user-level jupyter config directory (e.g. nbdiff run from ~/.jupyter): its file
+            # still ranks as the working-directory file, above every other directory
+            dirs[1] = dirs[0]
+            col.count("layout:cwd_is_the_user_config_dir")
         os.environ["JUPYTER_CONFIG_DIR"] = dirs[1]
         os.environ["JUPYTER_CONFIG_PATH"] = dirs[2]
         os.chdir(dirs[0])
